@@ -268,9 +268,9 @@ static void all_extensions(void)
 	/* 8. trailing non-whitespace after the value */
 	cur_kind = "trailing-bytes";
 	{
-		static const char *tr[] = {"x", "1", "]", "{", " x", "\n[1]", "\"", ","};
+		static const char *tr[] = {"x", "1", "]", "{", " x", "\n[1]", "\"", ",", "/*c*/", "//c\n", " /*c*/x", "'"};
 		int bare_number = NT == 1 && TK[0].kind == 'n';
-		for (int k = 0; k < 8; k++)
+		for (int k = 0; k < 12; k++)
 		{
 			if (bare_number && (isdigit((unsigned char)tr[k][0]) || strchr(".eE+-", tr[k][0])))
 				continue;
